@@ -9,6 +9,7 @@ import (
 	"io"
 	"net/http"
 	"net/http/httptest"
+	"os"
 	"runtime"
 	"sort"
 	"strconv"
@@ -31,7 +32,7 @@ import (
 
 // C11: HTTP input — the events of a request are the lines of its body, however it is chunked.
 //
-// case: c11.reqs <es> <conc> <n> (<gz> <ntrans> <rd>… [<hdrerr> <ndec> <rd>…])…
+// case: c11.reqs <es> <conc> <n> (<gz> <ntrans> <rd>… [<hdrerr> <ended> <ndec> <rd>…])…
 //
 //	<rd> = d:<hex> → Read returns (n, nil) | e:<hex> → (n, io.EOF) | x:<hex> → (n, error)
 //
@@ -45,7 +46,8 @@ import (
 //
 // For a gzip request the case line also carries the oracle parameter: what the gzip reader
 // (the library the plugin uses) returns on that transport stream when read the way
-// processBulk reads it. exec recomputes it and answers bad-case if the line disagrees.
+// processBulk reads it, and whether it then has read the transport stream to its end (a corrupt
+// stream makes it stop early). exec recomputes it and answers bad-case if the line disagrees.
 //
 // result: (<nact> <act>…)… sids <const> <k> [<id>…]   with <act> = i:<hex> | r:<status>
 
@@ -153,11 +155,12 @@ func (b *c11Body) term() {
 func (b *c11Body) Close() error { return nil }
 
 // c11GzOracle: what the gzip library does on this transport stream, read as processBulk reads.
-func c11GzOracle(trans []c11Rd) (hdrErr bool, dec []c11Rd) {
+func c11GzOracle(trans []c11Rd) (hdrErr, ended bool, dec []c11Rd) {
 	body := &c11Body{rds: trans}
+	defer func() { ended = body.ended }()
 	zr, err := kgzip.NewReader(body)
 	if err != nil {
-		return true, nil
+		return true, false, nil
 	}
 	buf := make([]byte, c11ReadBuf)
 	for i := 0; i < 1<<16; i++ {
@@ -169,14 +172,14 @@ func c11GzOracle(trans []c11Rd) (hdrErr bool, dec []c11Rd) {
 		case err == io.EOF:
 			dec = append(dec, c11Rd{'e', cp})
 			if n == 0 {
-				return false, dec
+				return false, false, dec
 			}
 		default:
 			dec = append(dec, c11Rd{'x', cp})
-			return false, dec
+			return false, false, dec
 		}
 	}
-	return false, dec
+	return false, false, dec
 }
 
 // ---------------------------------------------------------------- fakes
@@ -210,6 +213,9 @@ type c11Ctl struct {
 	mu    sync.Mutex
 	byGid map[uint64]*c11ReqLog
 	stray int
+	// diagnostics only (VERIF_DEBUG): how often consecutive In calls came from different requests
+	last     *c11ReqLog
+	switches int
 }
 
 func (c *c11Ctl) In(sid pipeline.SourceID, _ string, _ pipeline.Offsets, data []byte, _ bool, _ metadata.MetaData) uint64 {
@@ -222,6 +228,10 @@ func (c *c11Ctl) In(sid pipeline.SourceID, _ string, _ pipeline.Offsets, data []
 		c.stray++
 		return 0
 	}
+	if c.last != nil && c.last != l {
+		c.switches++
+	}
+	c.last = l
 	l.acts = append(l.acts, c11Act{in: true, data: cp})
 	l.sids = append(l.sids, sid)
 	return uint64(len(l.acts))
@@ -286,6 +296,7 @@ type c11Req struct {
 	gz     bool
 	trans  []c11Rd
 	hdrErr bool
+	ended  bool // gzip: the gzip reader reads the transport stream to its end
 	dec    []c11Rd
 }
 
@@ -339,12 +350,13 @@ func execC11(t *hx.Toks) string {
 		}
 		if q.gz {
 			q.hdrErr = t.Bool()
+			q.ended = t.Bool()
 			if q.dec, ok = c11ParseRds(t); !ok {
 				return "bad-case"
 			}
 			// the oracle parameter must be what the gzip library really does on this stream
-			he, dec := c11GzOracle(q.trans)
-			if he != q.hdrErr || len(dec) != len(q.dec) {
+			he, en, dec := c11GzOracle(q.trans)
+			if he != q.hdrErr || en != q.ended || len(dec) != len(q.dec) {
 				return "bad-case"
 			}
 			for j := range dec {
@@ -374,11 +386,13 @@ func execC11(t *hx.Toks) string {
 		path = "/_bulk"
 	}
 	logs := make([]*c11ReqLog, n)
+	bodies := make([]*c11Body, n)
 	for i := range logs {
 		logs[i] = &c11ReqLog{}
 	}
 	serve := func(i int, first, terminal func()) {
 		body := &c11Body{rds: reqs[i].trans, first: first, terminal: terminal, yield: conc}
+		bodies[i] = body
 		r := httptest.NewRequest(http.MethodPost, path, body)
 		if reqs[i].gz {
 			r.Header.Set("Content-Encoding", "gzip")
@@ -428,6 +442,9 @@ func execC11(t *hx.Toks) string {
 			return "barrier-timeout"
 		}
 	}
+	if conc && os.Getenv("VERIF_DEBUG") != "" {
+		fmt.Fprintf(os.Stderr, "c11: %d requests, %d switches between requests in the In order\n", n, ctl.switches)
+	}
 	if panicked != "" {
 		return panicked
 	}
@@ -454,7 +471,10 @@ func execC11(t *hx.Toks) string {
 			if s != l.sids[0] {
 				sidConst = false
 			}
-			distinct[s] = true
+			// concurrent: only requests that were held at their terminal read were in flight together
+			if !conc || bodies[i].ended {
+				distinct[s] = true
+			}
 		}
 	}
 	if n > 0 {
@@ -484,7 +504,7 @@ func c11Line(w *bufio.Writer, es, conc bool, reqs []c11Req) {
 			w.WriteString(" " + r.tok())
 		}
 		if q.gz {
-			fmt.Fprintf(w, " %s %d", hx.B(q.hdrErr), len(q.dec))
+			fmt.Fprintf(w, " %s %s %d", hx.B(q.hdrErr), hx.B(q.ended), len(q.dec))
 			for _, r := range q.dec {
 				w.WriteString(" " + r.tok())
 			}
@@ -504,7 +524,7 @@ func c11Plain(chunks [][]byte) c11Req {
 // c11Gz builds a gzip request from transport reads and fills in the oracle parameter.
 func c11Gz(trans []c11Rd) c11Req {
 	q := c11Req{gz: true, trans: trans}
-	q.hdrErr, q.dec = c11GzOracle(trans)
+	q.hdrErr, q.ended, q.dec = c11GzOracle(trans)
 	return q
 }
 
